@@ -35,6 +35,7 @@ from common import short
 from gen import nesting as G
 
 MODELS = ['Nesting']
+MODEL_TARGETS = ['JediModel.Model.Nesting', 'JediModel.Lemmas.Nesting', 'JediModel.Gen.C18']
 LEAN_TARGETS = ['JediModel.Props.C18', 'JediModel.Drivers.C18']
 MANIFEST = dict(
     text='Theorems over Model/Nesting (the flat scope table of Model/Scopes extended with parso leaf and node '
@@ -220,10 +221,6 @@ def context_shape(table, defs, pos, inner):
     """syntactic class of a failing position = which hypothesis of context_is_innermost_body_partial
     it violates"""
     leaves = table['leaves']
-    # the token at pos, and the token that ends exactly at pos (jedi works with that one)
-    for i, l in enumerate(leaves):
-        if (l[0], l[1]) <= pos <= (l[2], l[3]) and lambda_in_class(table, i):
-            return 'lambda-directly-in-class-body'
     if inner is not None:
         chain = defs[inner]['parents'] + [inner]
         for j in reversed(chain):
@@ -232,6 +229,10 @@ def context_shape(table, defs, pos, inner):
                 return 'async-def-body-not-right-of-def-keyword'
             if pos[1] <= d['start'][1]:
                 return 'continuation-line-not-right-of-enclosing-def'
+    # the token at pos, and the token that ends exactly at pos (jedi works with that one)
+    for i, l in enumerate(leaves):
+        if (l[0], l[1]) <= pos <= (l[2], l[3]) and lambda_in_class(table, i):
+            return 'lambda-directly-in-class-body'
     return 'unclassified'
 
 
@@ -385,7 +386,14 @@ def analyse(item):
         for li, dinfo in J['defs'].items():
             lf = leaves[int(li)]
             parents = byname.get((lf[0], lf[1]))
-            if parents is None or dinfo.get('raised'):
+            if parents is not None and dinfo.get('raised'):
+                # the generated programs stay away from the sandbox's typeshed hole: an exception here
+                # is a chain that is not delivered
+                out['fails'].append(('oracle-chain', 'parent() / full_name raised on a definition of a generated program',
+                                     {'source': src, 'line': lf[0], 'column': lf[1], 'layout': layout, 'shape': 'raised'},
+                                     None, {'raised': [r for r in J['raised'] if r[1] == lf[0] and r[2] == lf[1]]}))
+                continue
+            if parents is None:
                 continue
             nch += 1
             want = [ast2scope[j] for j in reversed(parents)] + [0]
